@@ -6,6 +6,7 @@
 package c12
 
 import (
+	"path/filepath"
 	"time"
 	"context"
 	"encoding/json"
@@ -50,6 +51,10 @@ type RunSpec struct {
 	CrashAt     int    `json:"crash_at,omitempty"` // store operation (sequence number within the run) at which the process dies; 0 = clean stop
 	CrashBefore bool   `json:"crash_before,omitempty"`
 	FaultAt     int    `json:"fault_at,omitempty"` // store operation that fails with an injected error; 0 = none
+	// RowFault > 0 (SQLite file store): the RowFault-th row fetch of the run
+	// (database/sql Rows.Next, counted over all queries: saved-position
+	// lookups, stream rows, page reads) fails with a driver error.
+	RowFault int `json:"row_fault,omitempty"`
 }
 
 type Case struct {
@@ -86,6 +91,7 @@ type exec struct {
 	savedAtStart []map[string]eventbus.Offset
 	cleanup func()
 	reopen  func() error
+	plan    *storekit.FaultPlan // SQLite file store: driver-level faults
 	anyCrashOrFault bool
 }
 
@@ -106,12 +112,12 @@ func (x *exec) open() error {
 		x.reopen = func() error { return nil }
 	case "sqlite":
 		dir, cl := storekit.TempDir("c12-")
-		st, err := storekit.OpenSQLite(dir, "sub.db")
+		st, plan, err := storekit.OpenSQLiteFaulty(filepath.Join(dir, "sub.db"))
 		if err != nil {
 			cl()
 			return err
 		}
-		x.inner, x.subIn = st, st
+		x.inner, x.subIn, x.plan = st, st, plan
 		x.cleanup = func() {
 			if c, ok := x.inner.(interface{ Close() error }); ok {
 				c.Close()
@@ -122,11 +128,11 @@ func (x *exec) open() error {
 			if c, ok := x.inner.(interface{ Close() error }); ok {
 				c.Close()
 			}
-			st, err := storekit.OpenSQLite(dir, "sub.db")
+			st, plan, err := storekit.OpenSQLiteFaulty(filepath.Join(dir, "sub.db"))
 			if err != nil {
 				return err
 			}
-			x.inner, x.subIn = st, st
+			x.inner, x.subIn, x.plan = st, st, plan
 			return nil
 		}
 	case "durable":
@@ -226,6 +232,18 @@ func (x *exec) run(ri int, r RunSpec, final bool) {
 		saved[id] = off
 	}
 	x.savedAtStart = append(x.savedAtStart, saved)
+	if x.plan != nil && r.RowFault > 0 {
+		x.plan.Reset()
+		x.plan.NextFail = r.RowFault
+		x.plan.Arm(true)
+		defer func() {
+			if nexts, _, _, _ := x.plan.Counts(); nexts >= r.RowFault {
+				x.anyCrashOrFault = true
+				x.o.Class("driver_row_fetch_fault_fired")
+			}
+			x.plan.Reset()
+		}()
+	}
 	var bus *eventbus.EventBus
 	var curStep *Step
 	x.base.AfterOp = func(op string) {
